@@ -33,7 +33,12 @@ class Calls(Interp):
                 return self.call_spec(f.id, [self.ev(a) for a in n.args])
             if self.spec_mode and f.id in self.reg.ufs:
                 fn, argtys, resty = self.reg.ufs[f.id]
-                args = [self.to_term(self.ev(a), t) for a, t in zip(n.args, argtys)]
+                args = []
+                for a, t in zip(n.args, argtys):
+                    try:
+                        args.append(self.to_term(self.ev(a), t))
+                    except Unsupported:
+                        args.append(self.fresh("undef_arg", t.sort()))   # specifications are total: an ill-typed argument is arbitrary
                 return self.from_term(fn(*args), resty)
         if isinstance(f, ast.Attribute) and isinstance(f.value, ast.Name) and f.value.id in ("log", "logging"):
             return VNone
@@ -232,6 +237,8 @@ class Calls(Interp):
                 env2["result"] = res
             for cl in c.ensures:
                 self.assume_clause(cl, spec_env=env2, old=pre, env={})
+            if c.labels.get("touch_result") and isinstance(res, VObj):
+                self.touch(TObj(), res.t)   # the result is a likely witness of existential goals
             return res
         e = labels[i]
         exc = VExc(e.rstrip("+"), [], exact=not e.endswith("+"))
